@@ -79,6 +79,12 @@ pub struct Script {
     /// polling starts. A dropped stop handle is not a stop signal: the expected history is the same in all three modes.
     #[serde(default)]
     pub stop_handle: u8,
+    /// the statistics consumer: 0 = keeps its receiver until polling has returned; 1 = reads the first statistics message
+    /// (the latest-volume call count, sent before the first chunk is looked up) and then drops its receiver. Only used
+    /// together with a stop that is in place before the polling loop starts (StopAfter(0|1)): no statistics are due
+    /// between that message and the stop check, so polling must still return successfully.
+    #[serde(default)]
+    pub stats_consumer: u8,
 }
 
 const N_DIRS: usize = 999;
@@ -235,7 +241,7 @@ impl PollWorld {
         }
         Some(ListedObject {
             key: format!("{}/{}/{}", self.site, volume, chunk_name(volume, s)),
-            last_modified: upload_time_g(self.script.lin(volume, s), self.script.tie_group).format("%Y-%m-%dT%H:%M:%S.000Z").to_string(),
+            last_modified: crate::s3sim::spell_instant(upload_time_g(self.script.lin(volume, s), self.script.tie_group), self.script.delivery >> 1, volume as u64),
             size: "4096".to_string(),
         })
     }
@@ -504,6 +510,17 @@ pub fn run_scenario(script: &Script) -> Result<Option<History>, Fail> {
     });
 
     let with_stats = script.with_stats;
+    let stats_leaves_early = with_stats && script.stats_consumer % 2 == 1 && matches!(script.consumer, Consumer::StopAfter(0) | Consumer::StopAfter(1));
+    let (stats_back_tx, stats_back_rx) = mpsc::channel::<(Vec<PollStats>, Option<mpsc::Receiver<PollStats>>)>();
+    std::thread::spawn(move || {
+        if stats_leaves_early {
+            let first: Vec<PollStats> = stats_rx.recv().into_iter().collect();
+            drop(stats_rx);
+            let _ = stats_back_tx.send((first, None));
+        } else {
+            let _ = stats_back_tx.send((Vec::new(), Some(stats_rx)));
+        }
+    });
     let site2 = site.clone();
     let poll_thread = std::thread::Builder::new()
         .stack_size(8 << 20)
@@ -534,7 +551,11 @@ pub fn run_scenario(script: &Script) -> Result<Option<History>, Fail> {
     gate.open();
     let (deliveries, _stop_tx) = consumer_thread.join().map_err(|_| Fail::new("oracle", "consumer thread panicked"))?;
     server.unregister(&site);
-    let stats: Vec<PollStats> = stats_rx.try_iter().collect();
+    let stats: Vec<PollStats> = match stats_back_rx.recv_timeout(Duration::from_secs(5)) {
+        Ok((first, None)) => first,
+        Ok((_, Some(rx))) => rx.try_iter().collect(),
+        Err(_) => Vec::new(),
+    };
     let w = world.lock().unwrap_or_else(|e| e.into_inner());
     Ok(Some(History { site, deliveries, outcome, stats, log: w.log.clone(), flags: w.flags.clone() }))
 }
@@ -682,12 +703,13 @@ pub fn script_strategy() -> impl Strategy<Value = Script> {
         .prop_map(|(start_volume, run_length, start_sequence, mut entries, never_at, consumer, (with_stats, delivery, tie_group), last_modified_header, (mut vcp, cuts))| {
             let hole_continue = (delivery / 4 + tie_group) % 4; // derived from other draws: 0..=3
             let stop_handle = ((delivery as usize + start_sequence + run_length) % 3) as u8; // derived likewise: 0..=2
+            let stats_consumer = ((tie_group as usize + start_sequence + entries.len()) % 2) as u8;
             vcp.cuts = cuts;
             if let (Some(sel), false) = (never_at, entries.is_empty()) {
                 let i = (sel as usize * entries.len()) >> 16;
                 entries[i].delay = NEVER;
             }
-            Script { start_volume, run_length, start_sequence, entries, consumer, with_stats, last_modified_header, vcp, delivery, tie_group, hole_continue, stop_handle }
+            Script { start_volume, run_length, start_sequence, entries, consumer, with_stats, last_modified_header, vcp, delivery, tie_group, hole_continue, stop_handle, stats_consumer }
         })
 }
 
@@ -711,6 +733,7 @@ pub fn classify(s: &Script) -> CaseInfo {
         .class(s.run_length >= 100, "widely-populated-bucket")
         .class(s.tie_group >= 2, "tied-upload-times")
         .class(s.stop_handle % 3 != 0, "stop-handle-dropped-early")
+        .class(s.with_stats && s.stats_consumer % 2 == 1 && matches!(s.consumer, Consumer::StopAfter(0) | Consumer::StopAfter(1)), "stats-consumer-leaves-before-stop")
         .class(s.delivery & 4 != 0, "pretty-printed-listings")
         .class(s.hole_continue > 0 && s.entries.iter().take(natural.len()).any(|e| e.delay == NEVER), "uploader-continues-past-a-missing-chunk")
 }
@@ -737,6 +760,7 @@ pub fn run(ctx: &Ctx, rep: &mut Report) {
     rep.require_class("scenarios", "stop", 30);
     rep.require_class("scenarios", "consumer-dropped", 20);
     rep.require_class("scenarios", "stop-handle-dropped-early", 50);
+    rep.require_class("scenarios", "stats-consumer-leaves-before-stop", 5);
     rep.require_class("scenarios", "delayed-or-faulted-chunk", 50);
     rep.require_class("scenarios", "widely-populated-bucket", 20);
     rep.require_class("scenarios", "tied-upload-times", 40);
